@@ -56,7 +56,7 @@ typedef struct {
   int fd_a, fd_b;     /* poll: socketpair (a is watched) */
   int bound;          /* tcp/pipe/udp: socket exists */
   int conn_pending;   /* pipe: a connect request is outstanding */
-  char path[200];     /* pipe */
+  char path[400];     /* pipe */
 } hent;
 typedef struct { int kind; int state; void* ptr; int handle; } rent;   /* kind 0 = work, 1 = udp_send */
 static hent H[MAXH]; static int nh;
@@ -103,11 +103,12 @@ static int wq_count(void) {
 static int complete_works(void) {
   int n = (pool_running >= 0) + pool_qn;
   if (n == 0) return 0;
+  int c0 = wq_count();   /* cancelled items already sit there; the loop thread is parked, so the queue only grows */
   pthread_mutex_lock(&gm);
   tickets += n;
   pthread_cond_broadcast(&gc);
   pthread_mutex_unlock(&gm);
-  for (int i = 0; i < 100000 && wq_count() < owed_works; i++) usleep(50);
+  for (int i = 0; i < 100000 && wq_count() < c0 + n; i++) usleep(50);
   pool_running = -1; pool_qn = 0;
   return n;
 }
@@ -192,6 +193,23 @@ int epoll_pwait(int epfd, struct epoll_event* ev, int maxev, int timeout, const 
   return n;
 }
 
+/* ------------------------------------------------------------------ send wrappers (forced EAGAIN) */
+static long eagain_budget;
+static int is_udp_fd(int fd) {
+  for (int i = 0; i < nh; i++) if (H[i].state == H_LIVE && H[i].kind == K_UDP && H[i].bound) {
+    int hfd = -1; uv_fileno(H[i].ptr, &hfd); if (hfd == fd) return 1;
+  }
+  return 0;
+}
+ssize_t sendmsg(int fd, const struct msghdr* m, int flags) {
+  if (eagain_budget > 0 && is_udp_fd(fd)) { eagain_budget--; printf("env sendmsg -> EAGAIN\n"); errno = EAGAIN; return -1; }
+  return syscall(SYS_sendmsg, fd, m, flags);
+}
+int sendmmsg(int fd, struct mmsghdr* v, unsigned int n, int flags) {
+  if (eagain_budget > 0 && is_udp_fd(fd)) { eagain_budget--; printf("env sendmmsg -> EAGAIN\n"); errno = EAGAIN; return -1; }
+  return (int) syscall(SYS_sendmmsg, fd, v, n, flags);
+}
+
 /* ------------------------------------------------------------------ callbacks */
 static void exec_op(char* text);
 static int idof(void* p) { for (int i = 0; i < nh; i++) if (H[i].ptr == p && H[i].state != H_NONE) return i; return -1; }
@@ -259,6 +277,11 @@ static void close_cb(uv_handle_t* h) {
   free(h);
   printf("endcb\n"); obs();
   if (H[i].kind == K_FSEVENT && fs_traffic) printf("res h%d iw=%d\n", i, inotify_watches());
+  if (H[i].kind == K_PIPE) {   /* what is left of bound socket files in the scratch directory */
+    char p[200]; snprintf(p, sizeof p, "%s/sock", scratch); int n = 0; DIR* d = opendir(p); struct dirent* e;
+    if (d) { while ((e = readdir(d))) if (e->d_name[0] != '.') n++; closedir(d); }
+    printf("res h%d sock=%d\n", i, n);
+  }
 }
 
 static void req_done(const char* kind, int r, int status) {
@@ -270,7 +293,7 @@ static void req_done(const char* kind, int r, int status) {
   free(R[r].ptr); R[r].ptr = NULL;
   printf("endcb\n"); obs();
 }
-static void after_work_cb(uv_work_t* req, int status) { owed_works--; req_done("work", ridof(req), status); }
+static void after_work_cb(uv_work_t* req, int status) { req_done("work", ridof(req), status); }
 static void send_cb(uv_udp_send_t* req, int status) { req_done("udp_send", ridof(req), status); }
 static void connect_cb(uv_connect_t* req, int status) { int r = ridof(req); if (R[r].handle >= 0) H[R[r].handle].conn_pending = 0; req_done("connect", r, status); }
 static void gai_cb(uv_getaddrinfo_t* req, int status, struct addrinfo* res) { (void) req; (void) status; (void) res; }
@@ -346,7 +369,12 @@ static void exec_op(char* text0) {
       RET(uv_listen((uv_stream_t*) e->ptr, 8, conn_cb));
     case K_PIPE:
       if (e->conn_pending) BAD;   /* uv_listen while a connect is pending: not a legal program */
-      if (!e->bound) { snprintf(e->path, sizeof e->path, "%s/sock/h%d", scratch, i); r = uv_pipe_bind((uv_pipe_t*) e->ptr, e->path); if (r) RET(r); e->bound = 1; }
+      if (!e->bound) {   /* a = wanted length of the path (names beyond sizeof(sun_path) are truncated by libuv, documented) */
+        int want = atoi(w[2]); int l = snprintf(e->path, sizeof e->path, "%s/sock/h%d_", scratch, i);
+        while (l < want && l < (int) sizeof e->path - 1) e->path[l++] = 'x';
+        e->path[l] = 0;
+        r = uv_pipe_bind((uv_pipe_t*) e->ptr, e->path); if (r) RET(r); e->bound = 1;
+      }
       RET(uv_listen((uv_stream_t*) e->ptr, 8, conn_cb));
     default: BAD;
     }
@@ -381,6 +409,22 @@ static void exec_op(char* text0) {
     struct sockaddr_in a; uv_ip4_addr("127.0.0.1", 0, &a);
     int r = uv_udp_bind((uv_udp_t*) H[i].ptr, (struct sockaddr*) &a, 0); if (r == 0) H[i].bound = 1; RET(r);
   }
+  if (!strcmp(o, "dgram") && nw == 2 && live(i) && H[i].kind == K_UDP && H[i].bound && !uv_is_closing(H[i].ptr)) {
+    /* environment: one datagram arrives for the handle */
+    struct sockaddr_in a; int l = sizeof a; if (uv_udp_getsockname((uv_udp_t*) H[i].ptr, (struct sockaddr*) &a, &l)) BAD;
+    a.sin_addr.s_addr = htonl(INADDR_LOOPBACK);
+    RET(syscall(SYS_sendto, sink_fd, "d", 1, 0, &a, sizeof a) == 1 ? 0 : -1);
+  }
+  if (!strcmp(o, "udp_send_nocb") && nw == 2 && nr < MAXR) {
+    int h = i;
+    if (!live(h) || H[h].kind != K_UDP || uv_is_closing(H[h].ptr)) BAD;
+    uv_udp_send_t* req = malloc(sizeof *req); static char byte = 'y'; uv_buf_t b = uv_buf_init(&byte, 1);
+    R[nr].kind = 4; R[nr].state = H_LIVE; R[nr].ptr = req; R[nr].handle = h; nr++;
+    int r = uv_udp_send(req, (uv_udp_t*) H[h].ptr, &b, 1, (struct sockaddr*) &sink_addr, NULL);
+    if (r != 0) { fprintf(stderr, "udp_send failed %d\n", r); exit(4); }
+    H[h].bound = 1;
+    RET(r);
+  }
   if (!strcmp(o, "udp_send") && nw == 2 && nr < MAXR) {
     int h = i;
     if (!live(h) || H[h].kind != K_UDP || uv_is_closing(H[h].ptr)) BAD;
@@ -391,14 +435,14 @@ static void exec_op(char* text0) {
     H[h].bound = 1;
     RET(r);
   }
-  if (!strcmp(o, "work") && nw == 1 && nr < MAXR) {
+  if ((!strcmp(o, "work") || !strcmp(o, "work_nocb")) && nw == 1 && nr < MAXR) {
+    int nocb = !strcmp(o, "work_nocb");    /* fire-and-forget: after_work_cb == NULL */
     uv_work_t* req = malloc(sizeof *req);
-    R[nr].kind = 0; R[nr].state = H_LIVE; R[nr].ptr = req; R[nr].handle = -1;
+    R[nr].kind = nocb ? 3 : 0; R[nr].state = H_LIVE; R[nr].ptr = req; R[nr].handle = -1;
     int me = nr++;
     pthread_mutex_lock(&gm); long s0 = started; pthread_mutex_unlock(&gm);
-    int r = uv_queue_work(&loop, req, work_cb, after_work_cb);
+    int r = uv_queue_work(&loop, req, work_cb, nocb ? NULL : after_work_cb);
     if (r != 0) { fprintf(stderr, "queue_work failed %d\n", r); exit(4); }
-    owed_works++;
     if (pool_running < 0) {
       pool_running = me;   /* the single worker is idle: wait until it has picked the item up */
       pthread_mutex_lock(&gm); while (started == s0) pthread_cond_wait(&gc, &gm); pthread_mutex_unlock(&gm);
@@ -443,7 +487,7 @@ static void exec_op(char* text0) {
   }
   if (!strcmp(o, "cancel") && nw == 2) {
     int r = rnum(w[1]);
-    if (r < 0 || r >= nr || R[r].state != H_LIVE || R[r].kind != 0) BAD;
+    if (r < 0 || r >= nr || R[r].state != H_LIVE || (R[r].kind != 0 && R[r].kind != 3)) BAD;
     int rc = uv_cancel((uv_req_t*) R[r].ptr);
     if (rc == 0) for (int j = 0; j < pool_qn; j++) if (pool_q[j] == r) { memmove(pool_q + j, pool_q + j + 1, (pool_qn - j - 1) * sizeof(int)); pool_qn--; break; }
     RET(rc);
@@ -502,6 +546,7 @@ int main(int argc, char** argv) {
       else if (sscanf(line, "config clock0 %ld", &v) == 1) vclock_ms = (uint64_t) v;
       else if (sscanf(line, "config cblimit %ld", &v) == 1) cblimit = v;
       else if (sscanf(line, "config polllimit %ld", &v) == 1) polllimit = v;
+      else if (sscanf(line, "config eagain %ld", &v) == 1) eagain_budget = v;
       else if ((p = strstr(line, "eintr")) != NULL) {
         p += 5; char* save; for (char* t = strtok_r(p, " ", &save); t && neintr < 64; t = strtok_r(NULL, " ", &save))
           if (sscanf(t, "%ld:%ld", &eintr[neintr].k, &eintr[neintr].d) == 2) neintr++;
@@ -531,6 +576,7 @@ int main(int argc, char** argv) {
   }
   fflush(stdout);
   for (int i = 0; i < ns; i++) free(S[i].ops);
+  for (int i = 0; i < nr; i++) if ((R[i].kind == 3 || R[i].kind == 4) && R[i].ptr) { free(R[i].ptr); R[i].ptr = NULL; }
   close(sink_fd);
   if (!loop_closed) { gate_forever = 1; pthread_cond_broadcast(&gc); _exit(0); }   /* handles are still allocated by design */
   return 0;
